@@ -935,6 +935,108 @@ class Managed(Unit):
                 ex.oblige(s, 'exit: outside a server process managed() is the identity', z3.And(z3.BoolVal(len(c) == 0), box(ex, p) == self.obj))
 
 
+class ManagedNoTypeid(Unit):
+    """managed(obj) without a typeid, inside the server: the registry entry to use is looked up by the object's class name (falling back to 'Managed<Name>'), made on
+    the fly when there is none -- and the registry only ever GROWS: other request threads look entries up and then call Server.create with the typeid they found
+    (several managed() calls for one class run concurrently), so an entry that exists at the lookup must still exist at the create.  Never removed, never overwritten."""
+    prop = 'C13'
+    file = F
+    qual = 'managed'
+    variant = 'no typeid, inside the server'
+    unreachable_ok = ('return obj',)
+    canaries = (('the on-the-fly registry entry is removed after use (a concurrent managed() of the same class then fails in Server.create)',
+                 '    proxy = server.create(None, typeid, obj)\n', '    proxy = server.create(None, typeid, obj)\n    server.registry.pop(typeid, None)\n', 'never removed'),
+                ('an existing registration is overwritten', "            typeid = 'Managed' + typeid.title()\n            try:\n                callable, *_ = server.registry[typeid]\n                if callable is not None:\n                    raise ValueError(",
+                 "            typeid = 'Managed' + typeid.title()\n            server.registry[typeid] = (None, None, None, AutoProxy)\n            try:\n                callable, *_ = server.registry[typeid]\n                if callable is not None:\n                    raise ValueError(", ''))
+
+    def setup(self, ex):
+        st = St()
+        st.ghost['ev'] = ()
+        self.obj = z3.Const('obj', Val)
+        self.created = z3.Function('server_create', Val, Val, Val)
+        self.cls_name = z3.String('class_name')
+        self.title = z3.Function('str_title', z3.StringSort(), z3.StringSort())
+        unit = self
+        present = z3.Function('registry_has', z3.StringSort(), z3.BoolSort())            # at the time of THIS call's look-ups; entries are only ever added by others
+        reg_callable = z3.Function('registry_callable', z3.StringSort(), Val)
+        reg_proxytype = z3.Function('registry_proxytype', z3.StringSort(), Val)
+        self.present, self.reg_callable = present, reg_callable
+
+        class Registry(Obj):
+            def havoc(self_, e, s):
+                pass
+
+            def getitem(self_, e, s, idx, node):
+                key = idx if z3.is_expr(idx) and idx.sort() == z3.StringSort() else V.sval(box(e, idx))
+                written = [w for w in s.ghost['ev'] if w[0] == 'set' and w[1].eq(key)]
+                ev(s2 := s.fork(), 'get', key)
+                if written:
+                    return [('ok', s2, written[-1][2])]
+                s_in = s2.fork().assume(present(key))
+                s_out = s2.fork().assume(z3.Not(present(key)))
+                outs = []
+                if e.feasible(s_in):
+                    outs.append(('ok', s_in, PyTuple([reg_callable(key), fresh('exposed'), fresh('method_to_typeid'), reg_proxytype(key)])))
+                if e.feasible(s_out):
+                    outs.append(e.raise_new(s_out, 'KeyError'))
+                return outs
+
+            def setitem(self_, e, s, idx, v, node):
+                key = idx if z3.is_expr(idx) and idx.sort() == z3.StringSort() else V.sval(box(e, idx))
+                s = s.fork()
+                ev(s, 'set', key, v, present(key))
+                return [('ok', s, None)]
+
+            def delitem(self_, e, s, idx, node):
+                s = s.fork()
+                ev(s, 'remove', idx)
+                return [('ok', s, None)]
+
+            def m_pop(self_, e, s, a, k, n):
+                s = s.fork()
+                ev(s, 'remove', a[0])
+                return [('ok', s, NONE)]
+            m_popitem = m_clear = m_pop
+
+        def create(e, s, a, k, n):
+            s = s.fork()
+            ev(s, 'create', [box(e, x) for x in a])
+            boom = fresh('create_failure')
+            s2 = s.fork().assume(V.isinst(boom, 'Exception'), *V.cls_facts(boom))
+            return [('ok', s, self.created(box(e, a[1]), box(e, a[2]))), ('raise', s2, boom)]
+        self.registry = Registry(ex, 'server.registry')
+        server = Rec(ex, 'server', immutable=True, methods={'create': Fn(create)}).init(st, registry=self.registry)
+        ex.globals['get_server'] = Fn(lambda e, s, a, k, n: [('ok', s, server)])
+        ex.globals['type'] = Fn(lambda e, s, a, k, n: [('ok', s, Rec(e, 'type(obj)', immutable=True).init(s, __name__=self.cls_name))])
+        ex.globals['AutoProxy'] = z3.Const('AutoProxy', Val)
+        st.assume(z3.Length(self.cls_name) > 0)
+        st.env.update(obj=self.obj, typeid=NONE)
+        return st
+
+    def on_call(self, ex, st, e, src):
+        if src.endswith('.title') and not e.args:
+            return ex.bind(ex.ev(e.func.value, st), lambda s, v: [('ok', s, self.title(v if v.sort() == z3.StringSort() else V.sval(box(ex, v))))])
+        return None
+
+    def post(self, ex, outs):
+        for k, s, p in outs:
+            evs = s.ghost['ev']
+            ex.oblige(s, 'exit: the registry only grows: managed() never removes an entry (a concurrent managed() of the same class has looked it up and is about to create with it)',
+                      z3.BoolVal(not [e_ for e_ in evs if e_[0] == 'remove']))
+            sets = [e_ for e_ in evs if e_[0] == 'set']
+            ex.oblige(s, 'exit: at most one entry is added, only under a name found absent (an existing registration is never overwritten), and it hosts the value itself (no callable)',
+                      z3.And(z3.BoolVal(len(sets) <= 1), *[z3.And(z3.Not(w[3]), z3.BoolVal(isinstance(unbox_handle(ex, w[2]), PyTuple) and len(unbox_handle(ex, w[2]).items) == 4),
+                                                                  box(ex, unbox_handle(ex, w[2]).items[0]) == NONE if isinstance(unbox_handle(ex, w[2]), PyTuple) and len(unbox_handle(ex, w[2]).items) == 4 else z3.BoolVal(False)) for w in sets]))
+            c = [e_ for e_ in evs if e_[0] == 'create']
+            if k in ('normal', 'return'):
+                ok = len(c) == 1 and len(c[0][1]) == 3
+                ex.oblige(s, 'exit: returns Server.create(None, <the typeid it settled on>, obj) for this very object, called exactly once',
+                          z3.And(c[0][1][0] == NONE, c[0][1][2] == self.obj, box(ex, p) == self.created(c[0][1][1], self.obj)) if ok else z3.BoolVal(False))
+            else:
+                ex.oblige(s, 'exit(raise): only what Server.create raised, or ValueError when the only candidate registration constructs objects (has a callable)',
+                          z3.Or(V.isinst(p, 'ValueError'), z3.BoolVal(len(c) == 1)))
+
+
 class ManagedOutside(Managed):
     variant = 'outside a server'
     in_server = False
@@ -1111,7 +1213,7 @@ class C13Lemma(LemmaUnit):
 
 
 UNITS = [ServerCreate, ServerCreateInterference, ServerCreateBadArgs, ServerCreateTyped, ServerCreateCallable, MakeProxy, MakeProxyAuto, MakeProxyMemory, ServerIncref, ServerDecref, ProxyInit, ProxyIncref, ProxyIncrefInServer, ProxyIncrefAfterFork, ProxyDispatch,
-         ProxyDecref, ProxyDecrefInServer, ProxyReduce, ProxyReduceInServer, Rebuild, RebuildInServer, Managed, ManagedOutside, MemRelease, MemInit, MemDel, MemProxyReduce, MemProxyInit, C13Lemma]
+         ProxyDecref, ProxyDecrefInServer, ProxyReduce, ProxyReduceInServer, Rebuild, RebuildInServer, Managed, ManagedNoTypeid, ManagedOutside, MemRelease, MemInit, MemDel, MemProxyReduce, MemProxyInit, C13Lemma]
 SCENARIOS = [('Server.', 'replay/scenarios/c13_rewrap_vs_last_decref.py'), ('', 'replay/scenarios/c13_refcount_histories.py', [1, 2, 3, 4, 5, 6])]
 BOUNDED = [{'function': 'whole histories across processes (create/pickle/unpickle/child/store/remove/managed/delete)', 'method': 'runtime scenario replay/scenarios/c13_refcount_histories.py against a reference-count model', 'bound': '6 seeds x 45 steps (thorough tier and fallback)', 'counted_as_proved': False}]
 THOROUGH_SCENARIOS = [('', 'replay/scenarios/c13_refcount_histories.py', list(range(7, 31)), 600)]
